@@ -119,6 +119,11 @@ def execute(case):
     g = core.rng(case["seed"])
     c1 = c11._operand(case, N, M, case["R1"], g, 0)
     c2 = c11._operand(case, N, None, case["R2"], g, 1)
+    if case.get("scale_exp", 0):
+        # all bounds are relative: the operands may have any norm (an absolute truncation threshold shows only for small norms)
+        ck.label("scaled:1e%d" % case["scale_exp"])
+        c1[case["seed"] % d] = c1[case["seed"] % d] * (10.0 ** case["scale_exp"])
+        c2[(case["seed"] // 3) % d] = c2[(case["seed"] // 3) % d] * (10.0 ** case["scale_exp"])
     A, x = T.TT(core.clone_cores(c1)), T.TT(core.clone_cores(c2))
     ck.label("dt:" + dt, "spectrum:" + case["spectrum"])
     init = None
